@@ -19,4 +19,7 @@ MUTANTS=[
  ('zip-ignore-close-err-and-copy', 'if _, err := io.Copy(w, fs); err != nil {\n\t\t\tw.Close()\n\t\t\treturn err\n\t\t}', 'io.Copy(w, fs)'),
  ('zip-stop-first-error-swallowed', 'if err = decompress(file); err != nil {\n\t\t\tbreak\n\t\t}', 'if err = decompress(file); err != nil {\n\t\t\terr = nil\n\t\t\tbreak\n\t\t}'),
  ('rename-before-extract-cleanup', 'defer os.RemoveAll(tempExtractDir)\n\n\tsrcDir := tempExtractDir', 'srcDir := tempExtractDir'),
+ # reverts of F18, F19
+ ('revert-hardlink-entries', '\t\tcase tar.TypeLink:', '\t\tcase tar.TypeFifo:'),
+ ('revert-stale-extract-removal', '\tos.RemoveAll(tempExtractDir) // left behind by a process that was killed\n\tif err := downloadAndExtractArchive(url,', '\tif err := downloadAndExtractArchive(url,'),
 ]
